@@ -97,13 +97,17 @@ func (h *hist) wit(extra map[string]any) any {
 
 // roFile is the backing store of a crash image: re-opening and reading have no business writing to it.
 type roFile struct {
-	b   []byte
-	pos int64
+	b     []byte
+	pos   int64
+	short int // when positive: Read hands out at most this many bytes per call, as an io.Reader may
 }
 
 func (f *roFile) Read(p []byte) (int, error) {
 	if f.pos >= int64(len(f.b)) {
 		return 0, io.EOF
+	}
+	if f.short > 0 && len(p) > f.short {
+		p = p[:f.short]
 	}
 	n := copy(p, f.b[f.pos:])
 	f.pos += int64(n)
@@ -131,6 +135,12 @@ func (f *roFile) Seek(off int64, whence int) (int64, error) {
 // checkImage re-opens a crash image and checks every chunk other than `target`. The image is only read.
 func checkImage(c *vm.Ctx, img []byte, model map[[2]int][]byte, target [2]int, h *hist, desc map[string]any) bool {
 	f := &roFile{b: img}
+	// one image in 31 is re-opened and read through a store that hands out 64..4095 bytes per Read call
+	imageSeq++
+	if imageSeq%31 == 0 {
+		f.short = []int{64, 512, 4095, 1000}[imageSeq/31%4]
+		desc["reopened_through_reads_of_at_most_bytes"] = f.short
+	}
 	var reg *region.Region
 	var err error
 	if c.Guard("crash/load", func() any { return h.wit(desc) }, func() { reg, err = region.Load(f) }) {
@@ -168,8 +178,13 @@ func checkImage(c *vm.Ctx, img []byte, model map[[2]int][]byte, target [2]int, h
 	}) {
 		return false
 	}
+	if ok && f.short > 0 {
+		c.Cover("image.reopened-through-short-reads")
+	}
 	return ok
 }
+
+var imageSeq int
 
 // enumerate turns the recorded physical writes of ONE WriteSector into crash images: every prefix j = 0..m, and for
 // each j < m the next write torn at 512-byte boundaries and at 8 random byte offsets. base is the file before the call,
@@ -245,16 +260,31 @@ func runCase(c *vm.Ctx, r *vm.Rand, hi int) {
 	if writerAt {
 		fa := &inject.RecFileAt{}
 		rf, back = &fa.RecFile, fa
-		reg, err = region.CreateWriter(fa)
 		c.Cover("backing.writerat")
 	} else {
 		rf = &inject.RecFile{}
 		back = rf
-		reg, err = region.CreateWriter(rf)
 		c.Cover("backing.seek+write")
 	}
+	model := map[[2]int][]byte{}
+	sinceReopen := -1 // writes issued by the current handle since it was loaded; -1: the handle created the file
+	// one case in four starts from a region file another program left behind: chunks in any order, free sectors with
+	// stale bytes between them, runs with more sectors than their data needs (regiongen.ForeignImage)
+	foreign := hi%4 == 2
+	if foreign {
+		img, chunks, free := regiongen.ForeignImage(r, r.Range(1, 10))
+		rf.B = img
+		for k, v := range chunks {
+			model[k] = v
+		}
+		h.ops = append(h.ops, fmt.Sprintf("prepared file of %d bytes holding %d chunks, %d free sectors inside; Load", len(img), len(chunks), len(free)))
+		reg, err = region.Load(back)
+		sinceReopen = 0
+	} else {
+		reg, err = region.CreateWriter(back)
+	}
 	if err != nil {
-		c.Violation("create/error", err.Error(), nil)
+		c.Violation("create/error", err.Error(), h.wit(nil))
 		return
 	}
 	reopen := func(why string) bool {
@@ -268,7 +298,6 @@ func runCase(c *vm.Ctx, r *vm.Rand, hi int) {
 		h.ops = append(h.ops, "reopen (Load)"+why)
 		return true
 	}
-	model := map[[2]int][]byte{}
 	ops := regiongen.Gen(r, r.Range(2, 60), hi%5 == 0)
 	// which writes of the history are crash-enumerated besides the final one: all of them in the thorough tier
 	// ("each WriteSector in generated histories"), three drawn ones in the quick tier
@@ -284,7 +313,7 @@ func runCase(c *vm.Ctx, r *vm.Rand, hi int) {
 	}
 	images := 0
 	bad, failed := false, false
-	sinceReopen := -1 // writes issued by the current handle since it was loaded; -1: the handle created the file
+	reads := 0
 	if c.Guard("history", func() any { return h.wit(nil) }, func() {
 		for oi, op := range ops {
 			switch op.Kind {
@@ -334,6 +363,14 @@ func runCase(c *vm.Ctx, r *vm.Rand, hi int) {
 			case "pad":
 				h.ops = append(h.ops, "PadToFullSector")
 				reg.PadToFullSector()
+			case "read":
+				// whether it returns the right bytes is C14's business; here it is something the handle has done (and
+				// a place the file position has been) before the write that gets interrupted
+				h.ops = append(h.ops, fmt.Sprintf("ReadSector(%d,%d)", op.X, op.Z))
+				reg.ReadSector(op.X, op.Z)
+				reads++
+			case "exist":
+				reg.ExistSector(op.X, op.Z)
 			case "reopen":
 				// from here on the occupancy map in use is one that Load rebuilt from the header (in two thirds of
 				// the cases; the others keep the handle that created the file, as all cases used to)
@@ -453,6 +490,12 @@ func runCase(c *vm.Ctx, r *vm.Rand, hi int) {
 	}
 	c.EvalN(int64(images), vm.HashStr("case", fmt.Sprint(c.Shard, hi)), true)
 	c.Cover("case.complete")
+	if foreign {
+		c.Cover("case.complete.file-prepared-by-another-program")
+	}
+	if reads > 0 {
+		c.Cover("history.reads-before-the-interrupted-write")
+	}
 	if hi == 0 {
 		c.Sample("case", h.wit(map[string]any{"physical_writes": sizes(writes), "crash_images_checked": images}))
 	}
